@@ -8,6 +8,8 @@
 (*   san-vary  n extra dNSNames derived from an existing one (distinct registrable domains)        *)
 (*   dup-ext   n distinct extensions duplicated                                                    *)
 (*   rdn-vary  n extra subject attributes derived from existing ones                               *)
+(*   san-case  n dNSNames, the first in upper case and repeated verbatim as common name (a list    *)
+(*             of 3 or 5 entries leaves spare capacity in the parsed slice: in-place edits show)    *)
 EXTENDS KeyUsage, TLC, Json
 CONSTANTS MaxEku
 VARIABLE x
@@ -21,7 +23,8 @@ SetToSeq(S) == LET RECURSIVE B(_)
                    B(T) == IF T = {} THEN <<>> ELSE LET m == CHOOSE y \in T : \A z \in T : y <= z IN <<m>> \o B(T \ {m})
                IN B(S)
 KuEku == {[r |-> "kueku", ku |-> SetToSeq(k), ekus |-> s, ok |-> Consistent(k, s)] : k \in (SUBSET Bits) \ {{}}, s \in EkuLists}
-Others == {[r |-> rr, n |-> n] : rr \in {"san-vary", "dup-ext", "rdn-vary"}, n \in {2, 3}}
+Others == {[r |-> rr, n |-> n] : rr \in {"san-vary", "dup-ext", "rdn-vary"}, n \in {2, 3}} \cup
+          {[r |-> "san-case", n |-> n] : n \in {3, 5}}
 Init == x = 0
 Next == UNCHANGED x
 Spec == Init /\ [][Next]_x
